@@ -43,6 +43,17 @@ def _dropchar(field):
     return fn
 
 
+def _bumptok(field, idx):
+    def fn(e):
+        toks = e.get(field)
+        if not toks or e.get('outcome') != 'ok':
+            return None
+        # only meaningful when the trace spec judges the case: keep it simple, bump the first token
+        toks[0][idx] += 1
+        return e
+    return fn
+
+
 PROPS = {
     'C11': dict(
         tv=dict(module='ScannerTrace', cfg='ScannerTrace.cfg'),
@@ -68,6 +79,18 @@ PROPS = {
         tv=dict(module='TokenStreamTrace', cfg='TokenStreamTrace.C04.cfg'),
         mc=[],
         corrupt=[('drop a character of a token value', _dropchar('base'))],
+        exhaustive_part=True,
+    ),
+    'C15': dict(
+        tv=dict(module='TokenStreamTrace', cfg='TokenStreamTrace.C15.cfg'),
+        mc=[],
+        corrupt=[('drop a character of an output token', _dropchar('out'))],
+        exhaustive_part=True,
+    ),
+    'C12': dict(
+        tv=dict(module='TokenStreamTrace', cfg='TokenStreamTrace.C12.cfg'),
+        mc=[],
+        corrupt=[('column of an output token + 1', _bumptok('out', 3))],
         exhaustive_part=True,
     ),
 }
@@ -115,5 +138,25 @@ DOC = {
               'tokenizers with all options off; TLC evaluates the predicate on every recorded stream (TokenStreamTrace, Check = C04).',
         note='Trusted: TLC, Json module, recorder. Exhaustive only up to the stated length over the listed alphabets; longer inputs sampled.',
         technique='TLA+ predicate spec (TokenStream) + TLC trace validation of exhaustive small-alphabet and random inputs',
+    ),
+    'C15': dict(
+        level='TokenStream.tla states the option relation: an order-preserving alignment of the stream under an option set into the '
+              'option-free stream in which every base token is either dropped (only kinds an enabled option may drop) or kept and equal '
+              'to its base token after the enabled rewrites (merge, unify, QuoteCodec.Decode), plus the "option on" clauses (no Unknown/'
+              'Comment/Eof token, no two adjacent whitespace tokens, single-space whitespace, Number type). The four real tokenizers are '
+              'run with options off and under 16 covering option sets (quick) / all 128 (thorough) over all inputs up to the bound and '
+              'random multi-line inputs; TLC evaluates the relation on every pair of streams (TokenStreamTrace, Check = C15).',
+        note='Trusted: TLC, Json module, recorder. Which whitespace tokens skip-whitespaces removes is left open (statement). A run that '
+             'returns no stream under options although the option-free run does counts as a rejection.',
+        technique='TLA+ predicate spec (TokenStream.OptionFails, exists-alignment) + TLC trace validation over option sets x inputs',
+    ),
+    'C12': dict(
+        level='TokenStream.tla states the position clause on top of the option alignment: a kept token reports LC(input, offset+1) - the '
+              'forward-scan coordinates (ScanLC, the same operator that specifies the scanner in C11) of its first character, offsets '
+              'taken from the cumulative lengths of the option-free stream - and the end-of-input token one column past the end. Same '
+              'drivers as C15 (four tokenizers x option sets x exhaustive small and random multi-line inputs with every line-break style).',
+        note='Trusted: TLC, Json module, recorder. Cases whose option-free stream is not lossless (C04) or not alignable (C15) are not '
+             'judged here. Positions inside error messages are not checked.',
+        technique='TLA+ predicate spec (TokenStream.PositionFails over ScanLC.LC) + TLC trace validation over option sets x inputs',
     ),
 }
